@@ -22,7 +22,8 @@ CHUNK = {"quick": 40, "thorough": 200}
 PROBES = ["header_straddles_chunk", "offset_0", "block_cut_by_eof", "key_00", "decoy_lower_priority_first_in_file",
           "xorencoded_B_mod4_nonzero", "all_keys_fallback_used", "custom_key_list", "expect_valueerror",
           "two_blocks_same_key", "block_in_stub_raw_view_only", "raw_stub_block_under_higher_priority_key", "from_path", "from_file_nonzero_cursor", "tiny_chunk", "container_pe",
-          "container_xorpe", "near_miss_filler", "block_in_last_7_bytes", "defaults_left_out_of_the_call"]
+          "container_xorpe", "near_miss_filler", "block_in_last_7_bytes", "defaults_left_out_of_the_call",
+          "allkeys_history"]
 RULE = ("seeded plans: container in {raw, PE .data, XorEncoded PE} x 0-3 config blocks (settings lists of 1-40 records, "
         "XOR key any of 0x00-0xff) at offsets biased to 0, 1, m*B-7..m*B+1, EOF-4096, EOF-len, EOF-7 x filler kind "
         "(zeros, 0xff, random, key byte, text, near-miss headers) x call (from_bytes/from_file/from_path, default or "
@@ -83,7 +84,25 @@ def gen_settings(rng, maxn=40):
 from dst.storage.images import block_bytes, build_image, make_filler, pe_data_offset  # noqa: E402,F401
 
 
+def _gen_allkeys_history(rng):
+    """Two candidate blocks under two different non-default keys (which of them all-keys mode prefers is a frequency
+    heuristic that no oracle pins) - but the choice has to be a function of the payload: it is extracted three times, with
+    all-keys extractions of other payloads (full of the one or the other key byte) in between."""
+    k1, k2 = rng.sample([k for k in range(1, 255) if k not in DEFAULT_KEYS], 2)
+    size = rng.choice([600, 3000, 9000])
+    o1 = rng.randint(0, size // 2 - 40)
+    o2 = rng.randint(size // 2, size - 40)
+    mk = lambda k, at, pad: {"key": k, "at": at, "settings": [[1, "short", 0], [2, "short", rng.getrandbits(16)]], "pad": pad}  # noqa: E731
+    return {"kind": "allkeys_history", "B": rng.choice([8192, 8192, 1021, 4096]), "keys": [k1, k2],
+            "a": {"container": "raw", "size": size, "filler": {"kind": "random", "seed": rng.getrandbits(24), "key": 0},
+                  "blocks": [mk(k1, o1, "min"), mk(k2, o2, "min")], "cut": None},
+            "others": [{"container": "raw", "size": 200, "filler": {"kind": "random", "seed": rng.getrandbits(24), "key": 0},
+                        "blocks": [mk(k, 100, "full")], "cut": None} for k in rng.sample([k1, k2], 2)]}
+
+
 def generate(rng, tier, index):
+    if rng.random() < 0.03:
+        return _gen_allkeys_history(rng)
     container = rng.choice(["raw", "raw", "raw", "pe", "xorpe"])
     B = rng.choice([8192] * 5 + [4095, 4096, 4097, 8191, 8193, 1, 2, 3, 5, 7, 8, 13, 16, rng.randint(1, 16384)])
     if container == "xorpe" and B < 64 and rng.random() < 0.5:
@@ -231,7 +250,47 @@ def _scratch_dir():
     return _SCRATCH
 
 
+def _execute_allkeys_history(plan) -> Result:
+    from dissect.cobaltstrike.beacon import BeaconConfig
+    res = Result()
+    res.nontrivial = True
+    res.probes["allkeys_history"] += 1
+    a, _ = build_image(plan["a"])
+    seq = [a]
+    for o in plan["others"]:
+        seq += [build_image(o)[0], a]
+    seen = []
+    with IoSeam(buffer_size=plan["B"], budget=Budget(50_000_000)):
+        for i, img in enumerate(seq):
+            try:
+                bc = BeaconConfig.from_bytes(img, all_xor_keys=True)
+                out = (bc.xorkey, bc.config_block)
+            except ValueError as e:
+                out = ("ValueError", str(e))
+            except ReadBudgetExceeded:
+                res.violate(("C01", "no_termination", "raw", "allkeys_history"), "all-keys extraction did not terminate")
+                return res
+            res.log.log("hist", i, out[0], out[1][:16] if isinstance(out[1], bytes) else out[1])
+            if i % 2 == 0:
+                seen.append(out)
+            elif out[0] == "ValueError":
+                res.violate(("C01", "missed_block", "nostraddle", "raw", "allkeys_history"),
+                            f"all-keys extraction of a payload with one zero-padded block under key {plan['others'][i // 2]['blocks'][0]['key']:#04x} failed: {out[1]}")
+                return res
+    keys = [s[0] for s in seen]
+    if any(s != seen[0] for s in seen):
+        res.violate(("C01", "result_depends_on_earlier_extractions", "all_keys"),
+                    f"the same payload (candidate blocks under {plan['keys'][0]:#04x} and {plan['keys'][1]:#04x}) extracted three times in "
+                    f"all-keys mode, with all-keys extractions of other payloads in between, gave keys {keys}")
+    elif seen[0][0] == "ValueError" or seen[0][0] not in (bytes([plan["keys"][0]]), bytes([plan["keys"][1]])):
+        res.violate(("C01", "missed_block", "nostraddle", "raw", "allkeys_history"),
+                    f"all-keys extraction found {seen[0][0]!r}, the payload has blocks under {plan['keys']}")
+    return res
+
+
 def execute(plan: dict) -> Result:
+    if plan.get("kind") == "allkeys_history":
+        return _execute_allkeys_history(plan)
     from dissect.cobaltstrike.beacon import BeaconConfig
     res = Result()
     raw, decoded = build_image(plan)
@@ -387,6 +446,10 @@ def execute(plan: dict) -> Result:
 # ------------------------------------------------------------------------------------------- shrinking
 
 def candidates(plan: dict):
+    if plan.get("kind") == "allkeys_history":
+        yield from core.shrink_list(plan, ["others"], min_len=1)
+        yield from core.shrink_int(plan, ["a", "size"])
+        return
     yield from core.shrink_list(plan, ["blocks"])
     for i in range(len(plan["blocks"])):
         yield from core.shrink_list(plan, ["blocks", i, "settings"], min_len=1)
